@@ -31,7 +31,7 @@ class SHACryptInfo:
 class SHA256CryptInfo(SHACryptInfo):
     _prefix = "$5$"
     REGEX = re.compile(
-        r"^\$5(\$rounds=(?P<rounds>[1-9][0-9]{0,8}))?\$(?P<salt>[^$]{1,16})\$(?P<hash>[^$]{43})$"
+        r"^\$5(\$rounds=(?P<rounds>[1-9][0-9]{3,8}))?\$(?P<salt>[./0-9A-Za-z]{1,16})\$(?P<hash>[^$]{43})$"
     )
 
 
@@ -39,7 +39,7 @@ class SHA256CryptInfo(SHACryptInfo):
 class SHA512CryptInfo(SHACryptInfo):
     _prefix = "$6$"
     REGEX = re.compile(
-        r"^\$6(\$rounds=(?P<rounds>[1-9][0-9]{0,8}))?\$(?P<salt>[^$]{1,16})\$(?P<hash>[^$]{86})$"
+        r"^\$6(\$rounds=(?P<rounds>[1-9][0-9]{3,8}))?\$(?P<salt>[./0-9A-Za-z]{1,16})\$(?P<hash>[^$]{86})$"
     )
 
 
